@@ -361,6 +361,12 @@ func Gen(rt *rapid.T, tw TW) Val {
 		if v.S == "" {
 			v.S = "a"
 		}
+		// ... trailing ones only: a NUL inside (or in front of) the text is a character
+		if len(v.S)+1 <= MaxLen(tw.T)/2 && rapid.IntRange(0, 5).Draw(rt, "nul") == 0 {
+			rs := []rune(v.S)
+			at := rapid.IntRange(0, len(rs)-1).Draw(rt, "nulat")
+			v.S = string(rs[:at]) + "\x00" + string(rs[at:])
+		}
 	default:
 		panic("valgen: no generator for " + tw.String())
 	}
@@ -772,6 +778,13 @@ func GenFor(rt *rapid.T, tw TW, prec, scale, maxLen int) Val {
 			}
 			r := []rune(v.S)
 			v.S = string(r[:len(r)/2])
+		}
+		// (trailing NULs are padding to the decoder)
+		if t := strings.TrimRight(v.S, "\x00"); t != v.S {
+			v.S = t
+			if v.S == "" {
+				v.S = "a"
+			}
 		}
 	}
 	return v
